@@ -16,6 +16,7 @@ def handle (st : DState) (j : Json) : DState × Json :=
   | .str "backend_sim" => (st, backendSimOp j)
   | .str "branch" => (st, branchOp j)
   | .str "mf" => (st, multiformOp j)
+  | .str "export" => (st, exportOp j)
   | .str "exp_pauliword" => (st, expPauliwordOp j)
   | .str "exp_qubitop" => (st, expQubitOp j)
   | .str "atoms" =>
